@@ -128,6 +128,23 @@ theorem index_key_order (i : Nat) (a b : OV) (n m : Nat) (ha : Valid a) (hb : Va
             exact ih qs c d h1 h2
   exact key _ _ _ _ hlt hpf
 
+/-- **C27 (range scans)**: the converse for the composite index key — if one entry sorts before another in
+    the index (whatever the node ids), its value is smaller or equal: walking the index in key order never
+    steps back in value order, so a range scan `[lo, hi)` sees exactly a contiguous run of entries. -/
+theorem index_key_order_reflected (i : Nat) (a b : OV) (n m : Nat) (ha : Valid a) (hb : Valid b)
+    (hk : kind a = kind b) (h : bytesLt (encIndexKey i a n) (encIndexKey i b m) = true) :
+    lt a b ∨ eqv a b := by
+  rcases lt_total a b hk with hlt | heq | hgt
+  · exact Or.inl hlt
+  · exact Or.inr heq
+  · have := bytesLt_asymm _ _ (index_key_order i b a m n hb ha hgt); rw [this] at h; cases h
+
+/-- … and among entries with equal values (`-0.0`/`+0.0` included) the node id alone decides the order -/
+theorem index_key_equal_values (i : Nat) (a b : OV) (n m : Nat) (ha : Valid a) (hb : Valid b) (h : eqv a b) :
+    bytesLt (encIndexKey i a n) (encIndexKey i b m) = bytesLt (beBytes 8 n) (beBytes 8 m) := by
+  unfold encIndexKey
+  rw [enc_eq_of_eqv a b ha hb h, List.append_assoc, List.append_assoc, bytesLt_append_same, bytesLt_append_same]
+
 /-! ### the Spec's float order IS the IEEE-754 order (link to the dyadic float model `Nervus.F64`) -/
 
 /-- **C27 (float order = IEEE order)**: on non-NaN doubles the Spec's `lt` (sign-magnitude key `fkey`) is exactly
